@@ -127,7 +127,13 @@ class Shard:
         return range(self.idx, total, self.n)
 
     def result(self):
-        return {'counters': self.counters,
+        reach = {}
+        try:
+            from . import instrument
+            reach = instrument.reach_summary()
+        except Exception:
+            pass
+        return {'reach': reach, 'counters': self.counters,
                 'nontrivial': sorted(self.nontrivial),
                 'distinct': len(self.seen),
                 'samples': self.samples,
@@ -171,6 +177,24 @@ def read_known_findings():
 # ---------------------------------------------------------------------------
 # parent side
 
+def anchor_reach(prop, reach):
+    """Which functions of the property's anchor files did the workload enter (measured by the
+    sys.monitoring PY_START counters), and which never."""
+    try:
+        files = set()
+        for line in open(os.path.join(VERIF_DIR, 'properties.jsonl')):
+            p = json.loads(line)
+            if p['id'] == prop:
+                files = {os.path.basename(f) for f in p['anchors']['files']}
+        mine = {k: v for k, v in reach.items() if k.split(':')[0] in files}
+        hit = {k: v for k, v in mine.items() if v > 0}
+        never = sorted(k for k, v in mine.items() if v == 0)
+        return {'files': sorted(files), 'functions_entered': len(hit), 'functions_in_anchor_files': len(mine),
+                'entries': sum(hit.values()), 'never_entered': never}
+    except Exception as e:      # evidence decoration must never break a verdict
+        return {'error': repr(e)}
+
+
 def _run_shard_proc(prop, tier, seed, idx, n, timeout):
     cmd = [PY, '-m', 'simmon.run', '--shard', prop, tier, str(seed), str(idx), str(n)]
     env = dict(os.environ)
@@ -210,6 +234,7 @@ def run_parent(prop, tier, seed, spec):
             problems.append(f'shard {i} produced no result: {e}: {out[-500:]} {err[-1500:]}')
 
     counters = {}
+    reach = {}
     nontrivial = set()
     samples = []
     violations = []
@@ -223,6 +248,8 @@ def run_parent(prop, tier, seed, spec):
                 counters[k] = max(counters.get(k, 0), v)
             else:
                 counters[k] = counters.get(k, 0) + v
+        for k, v in r.get('reach', {}).items():
+            reach[k] = reach.get(k, 0) + v
         nontrivial.update(r['nontrivial'])
         distinct += r['distinct']
         for s in r['samples']:
@@ -271,6 +298,7 @@ def run_parent(prop, tier, seed, spec):
         'shards_completed': len(results),
         'library_under_test': sorted(libs),
         'known_findings_reobserved': known,
+        'anchor_functions': anchor_reach(prop, reach),
         'problems': problems,
         'notes': notes[:20],
     }
